@@ -366,7 +366,7 @@ class LoopSpec(object):
                     n_ad, elem_fn, it_owner_ad = ad
             if not isinstance(it, ListV) and not dateseq and elem_fn is None:
                 raise Undecided("for-loop over %r in %s" % (it, fn))
-            if not isinstance(node.target, ast.Name):
+            if not isinstance(node.target, ast.Name) and not (isinstance(node.target, ast.Tuple) and all(isinstance(t, ast.Name) for t in node.target.elts) and elem_fn is not None):
                 raise Undecided("for-loop target")
             if elem_fn is not None:
                 n = n_ad
@@ -405,7 +405,15 @@ class LoopSpec(object):
                     c = ex.index_facts_pos(hb, i + it.offset)
                 else:
                     c = hb.heap.list_at(it.owner, it.field, i, self.elem_cls)
-                hb.locals[node.target.id] = c
+                if isinstance(node.target, ast.Name):
+                    hb.locals[node.target.id] = c
+                else:
+                    # tuple target: the adapter yields a tuple value of the same width
+                    items = getattr(c, "items", None)
+                    if items is None or len(items) != len(node.target.elts):
+                        raise Undecided("for-loop tuple target over non-tuple elements")
+                    for t, v in zip(node.target.elts, items):
+                        hb.locals[t.id] = v
                 if self.on_iter:
                     self.on_iter(LoopCtx(ex, entry, hb, i, n, "head", owner=it_owner), c)
                 for (s2, oc) in ex.exec_block(node.body, hb):
